@@ -608,7 +608,8 @@ func c19Worker(tier string, shard, n int) hWorkerOut {
 	p := world.Std()
 	env := &c19Env{dir: FreshDir("c19wd"), files: FreshDir("c19f"), u: "http://crl.test/c19a.crl", u2: "http://crl.test/c19b.crl"}
 	env.caPEM = WritePEM(env.files, "ca.pem", p.CA.Cert)
-	env.caPEM2 = WritePEM(env.files, "root.pem", p.Root.Cert)
+	// the second trusted certificate carries the subject of the first (the re-keyed CA): two certificates all the same
+	env.caPEM2 = WritePEM(env.files, "rekeyed-ca.pem", p.Sibling.Cert)
 	env.crlFile = filepath.Join(env.files, "list.crl")
 	env.crlFile2 = filepath.Join(env.files, "list2.crl")
 	os.WriteFile(env.crlFile2, world.SimpleCRL(p.CA, 2, 702).DER(), 0644)
